@@ -188,19 +188,30 @@ def run_window(ctx, spec):
   checks = {k: getattr(sc, v[0])() for k, v in KINDS.items()}
   for i in range(spec['n']):
     for count, w in ((23, 48), (24, 48), (25, 48), (47, 32), (48, 32),
-                     (49, 32), (50, 24), (52, 16), (60, 16)) + ((
+                     (49, 32), (50, 24), (52, 16), (60, 16), (100, 16),
+                     (131, 16)) + ((
                          (119, 16), (120, 16), (121, 16))
                                             if ctx.tier != 'quick' else ()):
       kind = rng.choice(['msb', 'prefix', 'postfix'])
       if not ctx.want('%d/%d/%d' % (i, count, w)):
         continue
       curve = rng.choice(CLASS_CURVES['256'])
+      if count in (100, 131):
+        # 16 biased bits on a 512/521-bit curve: 24 signatures carry fewer
+        # bits than the key, so only the 48/120 windows can succeed
+        curve = rng.choice(CLASS_CURVES['512'])
+        kind = 'msb'
       n = gen.model_curve(curve).n
       d, pub = sigs.issuer(rng, curve)
       arts, meta = _batch(rng, curve, d, pub, KINDS[kind][1](rng, n, w, count),
                           with_others=False)
       name = KINDS[kind][0]
-      checks[kind].Check(arts)
+      try:
+        checks[kind].Check(arts)
+      except Exception as e:  # pylint: disable=broad-except
+        ctx.violation('check-raised-%s@%s' % (type(e).__name__, name),
+                      '%r with %d signatures' % (e, count), {'count': count})
+        continue
       reg = 'window-straddle/%s' % kind
       hit = _judge(ctx, arts, meta, name, d, n, reg)
       ctx.count('evaluations')
